@@ -27,9 +27,15 @@ class RBook:
             self.w[k] = rng.choice([27, 53, 703, 16384])
             self.h[k] = rng.randint(1, 3)
         self.holes = set()
+        self.empty_rows = [set() for _ in range(self.ns)]        # rows with nothing at all in them (no formula is placed there either)
         for s in range(self.ns):
             for _ in range(rng.randint(0, 3)):
                 self.holes.add((s, rng.randrange(self.w[s]), rng.randrange(self.h[s])))
+            if self.h[s] >= 3 and rng.random() < 0.5:
+                for r in rng.sample(range(self.h[s] - 1), rng.randint(1, 2)):
+                    self.empty_rows[s].add(r)
+                    for c in range(self.w[s]):
+                        self.holes.add((s, c, r))
         self.formulas = []          # (sheet, text)
 
     def value(self, s, c, r):
@@ -45,10 +51,11 @@ class RBook:
         for s in range(self.ns):
             mine = [i for i, (fs, _) in enumerate(self.formulas) if fs == s]
             fc = 40 + self.w[s]
-            nrows = max(self.h[s], len(mine))
+            frows = [r for r in range(len(mine) + len(self.empty_rows[s]) + 1) if r not in self.empty_rows[s]][:len(mine)]
+            nrows = max([self.h[s]] + [r + 1 for r in frows])
             width = fc + 1 if mine else self.w[s]
             rows = [[self.value(s, c, r) for c in range(self.w[s])] + [None] * (width - self.w[s]) for r in range(nrows)]
-            for k, i in enumerate(mine):
+            for k, i in zip(frows, mine):
                 rows[k][fc] = None if i in omit else self.formulas[i][1]
                 self.fpos[i] = (s, fc, k)
             out.append((self.titles[s], rows))
@@ -120,7 +127,8 @@ def run(tier, seed):
                 'order; one sheet up to 16384 columns wide) whose every cell holds a number encoding (sheet, column, row), with holes; formulas on every sheet: single cells, '
                 'row / column / rectangular / single-cell areas, areas reaching beyond the used range, whole-column areas, all $ forms, bare / plain-title / quoted-title '
                 'prefixes (apostrophes doubled), columns at 26-boundaries up to XFD, rows to 5 digits, wrapped in SUM / COUNT / INDEX; the same unprefixed text repeated on other sheets; unknown titles; every formula evaluated through three '
-                'routes: class translated from its own cell, class of the whole workbook, whole-workbook class with 2-5 cells (holes and blank rows included) overridden. the three reference token classes on spellings and near misses (<class>.get vs the Lean scanners). Oracle: decode the '
+                'routes: class translated from its own cell, class of the whole workbook, whole-workbook class with 2-5 cells (holes and blank rows included) overridden; every fourth workbook also as a real .xlsx file read by Excel.parse (rows '
+                'with no cell at all included). the three reference token classes on spellings and near misses (<class>.get vs the Lean scanners). Oracle: decode the '
                 'planted numbers (Python) and the Lean model of fetch / get_matrix (same request). distinct = distinct (workbook, formula)')
     chk.assumptions += ['the three reference regexes are modelled by hand-written scanners (Model/Lex.lean) pinned to their regex sources (reference_regexes_pinned) and compared with '
                         '<class>.get on spellings and near misses; \\w \\d are modelled on ASCII + Cyrillic letters; the CellIdentifierRangeToken scanner is covered by Tie B only '
@@ -188,6 +196,21 @@ def run(tier, seed):
         if whole is not None:
             over_ex = realcode.executor_for(realcode.load_class(realcode.translate(sheets_known, None)))
             over_ex.set_cells([Cell(book.titles[s] if rng.random() < 0.5 else s, c, r, v) for (s, c, r), v in over.items()])
+        file_ex = None
+        if b % 4 == 1 and max(book.w) <= 1000 and not any(ch in t for t in book.titles for ch in '\\/*?:[]'):
+            # the same workbook as a real .xlsx file read by Excel.parse (rows without any cell, ragged rows, openpyxl's own cell objects)
+            import tempfile, shutil
+            fd = tempfile.mkdtemp(prefix='e2p_c02_')
+            try:
+                ftext, _ = realcode.full_translate(sheets_known if whole is not None else book.sheets(omit={i for i, p in enumerate(plan) if p[2] == 'unknown'}), workdir=fd, safety=False)
+                file_ex = realcode.executor_for(realcode.load_class(ftext))
+                # a file has no trailing rows without cells: a sheet ends at its last row that holds anything
+                fsheets = sheets_known if whole is not None else book.sheets(omit={i for i, p in enumerate(plan) if p[2] == 'unknown'})
+                file_rows = [max([r + 1 for r, row in enumerate(rows) if any(v is not None for v in row)] or [0]) for _, rows in fsheets]
+            except Exception as e:  # noqa
+                chk.violation({'why': 'the workbook written as a real file does not translate', 'impl': 'E' + core.exc_class(e), 'titles': book.titles, 'stream': 'file-route'})
+            finally:
+                shutil.rmtree(fd, ignore_errors=True)
         for i, (own, text, kind, payload) in enumerate(plan):
             pos = book.fpos[i]
 
@@ -203,6 +226,8 @@ def run(tier, seed):
                 if i == 0 and whole_err != 'SKIPPED':
                     chk.violation({'why': 'the whole workbook does not translate although every formula translates on its own', 'impl': whole_err, 'titles': book.titles,
                                    'stream': 'whole-workbook'})
+            if file_ex is not None and kind != 'unknown':
+                routes.append(('file', core.outcome(lambda: file_ex.get_cell(Cell(*pos)).value), book.value))
             for route, got, valuefn in routes:
                 chk.count('kind:' + kind)
                 chk.count('route:' + route)
@@ -214,7 +239,7 @@ def run(tier, seed):
                     if not (got.startswith('E') and got[1:] in ('Cell', 'Parser')):
                         chk.violation(dict(meta, why='a reference to a sheet title that does not exist is not rejected', impl=got, stream='unknown-title'))
                     continue
-                model_ok = route != 'override'          # the Lean request describes the workbook as stored
+                model_ok = route in ('entry', 'whole')          # the Lean request describes the workbook as stored in memory
                 blank = lambda v: BLANK if v is None else v
                 if kind == 'cell':
                     s, c, r = payload
@@ -252,7 +277,8 @@ def run(tier, seed):
                         if model_ok:
                             cases.append(('rf ' + ' '.join(head + ['cols', str(s), str(c1), str(c2)]), got, meta))
                         else:
-                            want = core.enc([[blank(valuefn(s, c, r)) for c in range(c1, c2 + 1)] for r in range(book.total_rows[s])])
+                            nrows_here = file_rows[s] if route == 'file' else book.total_rows[s]
+                            want = core.enc([[blank(valuefn(s, c, r)) for c in range(c1, c2 + 1)] for r in range(nrows_here)])
                             chk.seen((b, own, text, route))
                             if got != want:
                                 chk.violation(dict(meta, why='a whole-column area does not evaluate to the current values of its columns', impl=got[:300], want=want[:300],
